@@ -93,6 +93,9 @@ type Grouping struct {
 	Kids      []*Node     `json:"kids,omitempty"`
 	Typedefs  []*Typedef  `json:"typedefs,omitempty"`
 	Groupings []*Grouping `json:"groupings,omitempty"`
+	// Raw: statements written verbatim at the top of the body, before the nodes (uses of extensions: they are no nodes and
+	// are not copied by the inliner)
+	Raw []string `json:"raw,omitempty"`
 }
 
 type Feature struct {
@@ -321,6 +324,9 @@ func (x *w) grouping(d int, g *Grouping) {
 	}
 	for _, gg := range g.Groupings {
 		x.grouping(d+1, gg)
+	}
+	for _, r := range g.Raw {
+		x.ln(d+1, "%s", r)
 	}
 	for _, k := range g.Kids {
 		x.node(d+1, k)
